@@ -22,6 +22,7 @@ ValidUpTo <= offset <= ValidUpTo + 3 (model-checked consequence).  The continuat
 convention itself is not reported.  Line/column count LF only, as the module documents.
 """
 import json
+import os
 import vlib
 
 LEVEL = "model_checking"
@@ -36,7 +37,14 @@ def sig_of(e, events, k):
     return s
 
 
+# development only (mutation testing): VERIF_DEV_FAST=1 skips the model stage and reuses the
+# TLC-generated replay inputs of a previous run (both are independent of the code under test)
+DEV_FAST = os.environ.get("VERIF_DEV_FAST") == "1"
+
+
 def _gen_replay(ctx, cfg, name, workers=6):
+    if DEV_FAST and os.path.exists(ctx.path("replay-in-%s.ndjson" % name)):
+        return _replay(ctx, name)
     res = vlib.tlc(ctx, "Gen_Utf8.tla", cfg, workers=workers, timeout=3000, xmx="6g")
     if not res.completed:
         raise vlib.ToolError("Gen_Utf8 did not complete:\n" + res.out[-3000:])
@@ -50,6 +58,11 @@ def _gen_replay(ctx, cfg, name, workers=6):
     ctx.stage("gen %s" % cfg, res.wall, behaviours=len(lines), states=res.distinct)
     if len(lines) != res.distinct:
         raise vlib.ToolError("Gen_Utf8: %d behaviours printed for %d states" % (len(lines), res.distinct))
+    return _replay(ctx, name)
+
+
+def _replay(ctx, name):
+    inp = ctx.path("replay-in-%s.ndjson" % name)
     b = vlib.harness_bin("c13")
     outp = ctx.path("replay-out-%s.ndjson" % name)
     rc, out, wall = vlib.sh([b, "replay", inp, outp], timeout=3000)
@@ -74,8 +87,9 @@ def _gen_replay(ctx, cfg, name, workers=6):
 
 def run(ctx):
     q = ctx.quick
-    vlib.model_check(ctx, "MC_Bytes.tla", "MC_Bytes.cfg", workers=6, timeout=600)
-    vlib.model_check(ctx, "MC_Utf8.tla", "MC_Utf8_quick.cfg" if q else "MC_Utf8_thorough.cfg", workers=6, timeout=3000)
+    if not DEV_FAST:
+        vlib.model_check(ctx, "MC_Bytes.tla", "MC_Bytes.cfg", workers=6, timeout=600)
+        vlib.model_check(ctx, "MC_Utf8.tla", "MC_Utf8_quick.cfg" if q else "MC_Utf8_thorough.cfg", workers=6, timeout=3000)
 
     # ---- spec -> impl
     _gen_replay(ctx, "Gen_Utf8_quick.cfg", "len4")
